@@ -200,6 +200,8 @@ enum J {
     Obj(Vec<(String, J)>),
     /// `n` nested arrays, the innermost one empty
     Deep(usize),
+    /// `n` nested arrays around the number 1: an ill-typed leaf whose error has to travel up through every level
+    DeepBad(usize),
 }
 
 fn n(lit: &str) -> J {
@@ -268,6 +270,15 @@ impl J {
                     out.push(']');
                 }
             }
+            J::DeepBad(n) => {
+                for _ in 0..*n {
+                    out.push('[');
+                }
+                out.push('1');
+                for _ in 0..*n {
+                    out.push(']');
+                }
+            }
         }
     }
 
@@ -295,6 +306,13 @@ impl J {
             J::Deep(n) => {
                 let mut v = Value::Array(vec![]);
                 for _ in 1..*n {
+                    v = Value::Array(vec![v]);
+                }
+                v
+            }
+            J::DeepBad(n) => {
+                let mut v = Value::from(1);
+                for _ in 0..*n {
                     v = Value::Array(vec![v]);
                 }
                 v
@@ -560,6 +578,8 @@ fn replacements() -> Vec<(&'static str, J)> {
         ("[[]]", arr(vec![arr(vec![])])),
         ("{}", obj(vec![])),
         ("deep-array", J::Deep(DEEP)),
+        ("deep-array-ill-typed-leaf-12", J::DeepBad(12)),
+        ("deep-array-ill-typed-leaf-120", J::DeepBad(120)),
     ]
 }
 
